@@ -1,6 +1,6 @@
 import BppModel.Matrix
 /-!
-# `MatrixTools::lap` (`MatrixTools.h:1267-1558`): the linear assignment problem
+# `MatrixTools::lap` (`MatrixTools.h:1267-1569`): the linear assignment problem
 
 ## Specification
 
@@ -49,9 +49,9 @@ end Cert
 /-! ## The part of the routine that is transcribed: inputs without free rows
 
 When the minima of the columns lie in pairwise different rows, the column reduction
-(`MatrixTools.h:1294-1318`) assigns every row, the two later phases (augmenting row reduction,
+(`MatrixTools.h:1305-1329`) assigns every row, the two later phases (augmenting row reduction,
 augmentation) find no free row and do nothing, and the answer is produced by the column reduction,
-the reduction transfer (`:1321-1340`) and the final loop (`:1537-1544`) alone.  `lapEasy` is a
+the reduction transfer (`:1332-1351`) and the final loop (`:1548-1555`) alone.  `lapEasy` is a
 transcription of exactly these three pieces (it answers `none` when some row stays free); on its
 domain the driver compares it bit-for-bit with the implementation and `lapEasy_certified`
 (`Props/C04Lap.lean`) proves that its answer is a certified, hence optimal, assignment. -/
